@@ -606,7 +606,7 @@ def debug_spec_fn(s: Struct):
         if k == "bool":
             L.append("      if bits == 1 { o.put(b\"true\"); } else { o.put(b\"false\"); }")
         elif k in ("uint", "native"):
-            L.append("      o.put_dec(bits);")
+            L.append(f"      o.put_unsigned(bits, {f.ty.width});")
         elif k == "signed":
             L.append(f"      o.put_signed(bits, {f.ty.width});")
         elif k == "enum":
@@ -615,7 +615,7 @@ def debug_spec_fn(s: Struct):
         elif k == "optenum":
             arms = " ".join(f"{hexlit(vv)} => {{ o.open_wrap(b\"Ok\", pretty, ind + 4); o.put(b\"{vn}\"); o.close_wrap(pretty, ind + 4); }}"
                             for vn, vv in f.ty.ref.active())
-            L.append(f"      match bits {{ {arms} _ => {{ o.open_wrap(b\"Err\", pretty, ind + 4); o.put_dec(bits); o.close_wrap(pretty, ind + 4); }} }}")
+            L.append(f"      match bits {{ {arms} _ => {{ o.open_wrap(b\"Err\", pretty, ind + 4); o.put_unsigned(bits, {f.ty.width}); o.close_wrap(pretty, ind + 4); }} }}")
         elif k == "nested":
             L.append(f"      exp_{f.ty.ref.name}(bits, pretty, ind + 4, o);")
         L.append("    }")
